@@ -334,3 +334,70 @@ Proof.
   split; [rewrite <- !app_assoc; reflexivity|].
   split; [rewrite map_length, combine_length, <- LoB, Nat.min_id; reflexivity|exact LvrB].
 Qed.
+
+(* ------------------------------------------------------------------ what is reported *)
+Definition in_ids (ids : list N) (e : erule) : bool := existsb (N.eqb (er_id e)) ids.
+
+Definition rep_of (nm : bool) (l : list (rule * bool)) : list erule :=
+  map (fun rb => {| er_id := r_id (fst rb); er_ns := r_ns (fst rb); er_matched := snd rb |})
+      (filter (fun rb => negb (r_private (fst rb)) && (snd rb || nm)) l).
+
+Lemma rep_of_app nm a b : rep_of nm (a ++ b) = rep_of nm a ++ rep_of nm b.
+Proof. unfold rep_of. rewrite filter_app, map_app. reflexivity. Qed.
+
+Lemma filter_ids_all ids nm l :
+  (forall rb, In rb l -> existsb (N.eqb (r_id (fst rb))) ids = true) ->
+  filter (in_ids ids) (rep_of nm l) = rep_of nm l.
+Proof.
+  intros H. unfold rep_of. induction l as [|rb l IH]; [reflexivity|].
+  cbn [filter]. destruct (negb (r_private (fst rb)) && (snd rb || nm)); cbn [map filter].
+  - unfold in_ids at 1. cbn [er_id]. rewrite (H rb (or_introl eq_refl)). f_equal. apply IH. intros x Hx. apply H. right. exact Hx.
+  - apply IH. intros x Hx. apply H. right. exact Hx.
+Qed.
+
+Lemma filter_ids_none ids nm l :
+  (forall rb, In rb l -> existsb (N.eqb (r_id (fst rb))) ids = false) ->
+  filter (in_ids ids) (rep_of nm l) = [].
+Proof.
+  intros H. unfold rep_of. induction l as [|rb l IH]; [reflexivity|].
+  cbn [filter]. destruct (negb (r_private (fst rb)) && (snd rb || nm)); cbn [map filter].
+  - unfold in_ids at 1. cbn [er_id]. rewrite (H rb (or_introl eq_refl)). apply IH. intros x Hx. apply H. right. exact Hx.
+  - apply IH. intros x Hx. apply H. right. exact Hx.
+Qed.
+
+Lemma in_firstn {A} (x : A) n l : In x (firstn n l) -> In x l.
+Proof. intros H. rewrite <- (firstn_skipn n l). apply in_or_app. left. exact H. Qed.
+Lemma in_skipn {A} (x : A) n l : In x (skipn n l) -> In x l.
+Proof. intros H. rewrite <- (firstn_skipn n l). apply in_or_app. right. exact H. Qed.
+
+(* The rules of A reported for the union are the rules reported for A alone, in the same order with the same
+   verdicts (rule identifiers of A and of the added rules being distinct). *)
+Theorem spec_reported_independent inp n n' gA gB rA rB mgA mgB mrA mrB nm ids :
+  length mgA = nvars_of gA -> length mgB = nvars_of gB -> length mrA = nvars_of rA ->
+  (forall a b, In a (gA ++ rA) -> In b gB -> r_ns b <> r_ns a) ->
+  (forall a, In a (gA ++ rA) -> existsb (N.eqb (r_id a)) ids = true) ->
+  (forall b, In b (gB ++ rB) -> existsb (N.eqb (r_id b)) ids = false) ->
+  filter (in_ids ids)
+         (spec_reported {| s_globals := gA ++ gB; s_rules := rA ++ rB; s_nns := n' |}
+                        (with_matches inp (mgA ++ mgB ++ mrA ++ mrB)) nm)
+  = spec_reported {| s_globals := gA; s_rules := rA; s_nns := n |} (with_matches inp (mgA ++ mrA)) nm.
+Proof.
+  intros HgA HgB HrA Hdis HidA HidB.
+  destruct (spec_verdicts_independent inp n n' gA gB rA rB mgA mgB mrA mrB HgA HgB HrA Hdis)
+    as [vgB [vrB [E [LgB LrB]]]].
+  change (spec_reported ?sc ?i nm) with (rep_of nm (spec_verdicts sc i)).
+  rewrite E. set (vA := spec_verdicts {| s_globals := gA; s_rules := rA; s_nns := n |} (with_matches inp (mgA ++ mrA))).
+  rewrite !rep_of_app, !filter_app.
+  assert (HvA : forall rb, In rb vA -> In (fst rb) (gA ++ rA)).
+  { intros [r b] Hin. subst vA. unfold spec_verdicts in Hin. cbn [s_globals s_rules fst] in *.
+    apply in_app_or in Hin as [Hin|Hin]; apply in_or_app; [left|right]; exact (in_combine_l _ _ _ _ Hin). }
+  rewrite (filter_ids_all ids nm (firstn (length gA) vA))
+    by (intros rb Hrb; apply HidA, HvA; exact (in_firstn _ _ _ Hrb)).
+  rewrite (filter_ids_all ids nm (skipn (length gA) vA))
+    by (intros rb Hrb; apply HidA, HvA; exact (in_skipn _ _ _ Hrb)).
+  rewrite (filter_ids_none ids nm (combine gB vgB))
+    by (intros [r b] Hrb; apply HidB; apply in_or_app; left; exact (in_combine_l _ _ _ _ Hrb)).
+  rewrite (filter_ids_none ids nm (combine rB vrB))
+    by (intros [r b] Hrb; apply HidB; apply in_or_app; right; exact (in_combine_l _ _ _ _ Hrb)).
+  cbn [app]. rewrite app_nil_r, <- rep_of_app, firstn_skipn. reflexivity.
+Qed.
